@@ -825,3 +825,70 @@ M('c02-twin-any-scan', 'C02', 'silent',
                 break''', '''            if isinstance(result, RelayError):
                 reply.copy(result.reply)
                 break''', 1))
+
+# ---------------------------------------------------------------- C05 / C09
+DR = 'slimta/smtp/datareader.py'
+M('c09-eod-truthiness', 'C09', 'fire:G4',
+  (DR, '''        if self.EOD is None:
+            # Check for the End-Of-Data marker.''', '''        if not self.EOD:
+            # Check for the End-Of-Data marker.''', 1))
+M('c05-eod-truthiness-return', 'C05', 'fire:R5.1',
+  (DR, '''        return self.EOD is None''', '''        return not self.EOD''', 1))
+M('c05-undot-outside-guard', 'C05', 'fire:R5.1',
+  (DR, '''            elif line[0:1] == b'.':  # line[0] is an integer
+                line = line[1:]
+                self.lines[i] = line''', '''        if line[0:1] == b'.' and self.EOD != i:
+            line = line[1:]
+            self.lines[i] = line''', 1))
+M('c05-return-all-keeps-eod-line', 'C05', 'fire:R5.3',
+  (DR, '''        after_data_lines = self.lines[self.EOD+1:]''',
+   '''        after_data_lines = self.lines[self.EOD:]''', 1))
+M('c05-return-all-drops-leftover', 'C05', 'fire:R5.3',
+  (DR, '''        self.io.recv_buffer = b''.join(after_data_lines)
+''', '', 1))
+M('c05-buffer-not-cleared', 'C05', 'fire:R5.3',
+  (DR, '''        self.add_lines(self.io.recv_buffer)
+        self.io.recv_buffer = b\'\'''', '''        self.add_lines(self.io.recv_buffer)''', 1))
+M('c05-buffer-not-taken', 'C05', 'fire:R5.3',
+  (DR, '''        self.from_recv_buffer()
+        while self.recv_piece():''', '''        while self.recv_piece():''', 1))
+M('c09-second-socket-reader', 'C09', 'fire:G1',
+  (DR, '''        piece = self.io.raw_recv()''',
+   '''        piece = self.io.socket.recv(4096)''', 1))
+M('c09-auth-reads-raw', 'C09', 'fire:G1',
+  ('slimta/smtp/auth.py', '''            response = self.io.recv_line()''',
+   '''            response = self.io.raw_recv().rstrip()''', 1))
+M('c09-recv-line-consumes-partial', 'C09', 'fire:G2',
+  (IOF, '''            match = line_pattern.match(input)
+            if match:
+                self.recv_buffer = input[match.end(0):]
+                return match.group(1)
+            self.buffered_recv()''', '''            match = line_pattern.match(input)
+            if match:
+                self.recv_buffer = input[match.end(0):]
+                return match.group(1)
+            if len(input) > 1000:
+                self.recv_buffer = input[1000:]
+                return input[:1000]
+            self.buffered_recv()''', 1))
+M('c09-line-pattern-no-newline', 'C09', 'fire:G2',
+  (IOF, '''line_pattern = re.compile(br'(.*?)\\r?\\n')''',
+   '''line_pattern = re.compile(br'(.*?)\\r?\\n?')''', 1))
+M('c09-toobig-session-continues', 'C09', 'fire:G5',
+  (SRV, '''        if err is not None:
+            # The reader gave up in the middle of the message. What is left
+            # of it on the wire must not be read as commands.
+            raise StopIteration()
+''', '', 1))
+M('c09-twin-eod-helper', 'C09', 'silent',
+  (DR, '''        if self.EOD is not None:
+            return False
+
+        piece = self.io.raw_recv()''', '''        if self._seen_eod():
+            return False
+
+        piece = self.io.raw_recv()''', 1),
+  (DR, '''    def return_all(self):''', '''    def _seen_eod(self):
+        return self.EOD is not None
+
+    def return_all(self):''', 1))
